@@ -129,6 +129,11 @@ def _c17_wide(args):
         lo, hi = rng_of(t)
         scale = F(rng.choice([1, 3, 5, 7, -1, -3, -5, -7, 9, 11, -13]), 1 << rng.randint(0, 4)) * rng.choice([1, 2, 4])
         bias = F(rng.randint(-40, 40), 1 << rng.randint(0, 3))
+        c_ = rng.random()
+        if c_ < 0.15:
+            bias = F(0)            # only scale= is passed
+        elif c_ < 0.3:
+            scale = F(1)           # only bias= is passed
         k4s = [4 * lo, 4 * hi, 4 * lo - 1, 4 * hi + 1, 4 * hi + 2, 4 * lo - 2, 0, 2, -2, 6] + [rng.randint(4 * (lo - 3), 4 * (hi + 3)) for _ in range(8)]
         us = [F(k, 4) / F(2) ** f for k in k4s]
         us = [u for u in us if F(float(u * scale + bias)) == u * scale + bias and F(float(u * scale)) == u * scale]
